@@ -72,20 +72,20 @@ Fixpoint find_from (sub s : str) (i : nat) : option nat :=
 Definition find (sub s : str) : option nat := find_from sub s 0.
 
 (* s.replace(old, new) for non-empty [old]: left to right, non overlapping.
-   Structural recursion on [s] with a skip counter. *)
-Fixpoint replace_go (old new s : str) (skip : nat) : str :=
-  match s with
-  | [] => []
-  | c :: s' =>
-      match skip with
-      | Datatypes.S k => replace_go old new s' k
-      | O => if startswith old s
-             then new ++ replace_go old new s' (length old - 1)
-             else c :: replace_go old new s' 0
+   Recursion on fuel >= length s. *)
+Fixpoint replace_fuel (fuel : nat) (old new s : str) : str :=
+  match fuel with
+  | O => s
+  | Datatypes.S f =>
+      match s with
+      | [] => []
+      | c :: s' =>
+          if startswith old s then new ++ replace_fuel f old new (skipn (length old) s)
+          else c :: replace_fuel f old new s'
       end
   end.
 Definition replace (old new s : str) : str :=
-  match old with [] => s | _ => replace_go old new s 0 end.
+  match old with [] => s | _ => replace_fuel (length s) old new s end.
 
 (* s.split(c) for a one-character separator *)
 Fixpoint split_on (c : ascii) (s : str) : list str :=
